@@ -9,7 +9,7 @@ import enginelib as E
 import pipeline_oracle
 import vlib
 
-COQ_TARGETS = ["Model/Engine.vo", "Model/EngineF.vo", "Model/Observe.vo", "Proofs/EngineProofs.vo", "Proofs/EngineFProofs.vo"]
+COQ_TARGETS = ["Model/Engine.vo", "Model/EngineF.vo", "Model/Observe.vo", "Proofs/EngineProofs.vo", "Proofs/EngineFProofs.vo", "Proofs/EngineAllProofs.vo"]
 ALL_ACTIVATIONS = ("General", "General", "General", "First", "Last", "Highest", "Lowest", "Proportional", "Threshold")
 IMPORTS = "From VF Require Import GenNorm GenHedge GenTerm Core Engine EngineF Observe."
 CHECKER = ("fun c => let '(e, expected, tbl) := c in "
